@@ -9,8 +9,8 @@ counter `used`.  One `step` = one clock cycle; the environment attempts `alloc`,
 * `alloc` (ready iff `used != entries`, :146) returns `order[used]`.
 * `free_idx(idx)` (:150-155): `order[i] := order[i+1]` for `idx ≤ i < entries-1`,
   `order[entries-1] := order[idx]`, i.e. the entry at `idx` is removed and re-inserted at the end.
-  An out-of-range `idx` (possible when `entries` is not a power of two) moves nothing: no `i ≥ idx`
-  exists and an Amaranth `Array` read out of range yields the last element.
+  An out-of-range `idx` (possible when `entries` is not a power of two) only overwrites the last
+  entry with the value of the out-of-range `Array` read (0 in pysim).
 * `free(ident)` (:157-163) searches the position of `ident` (last match wins, 0 when there is none)
   and calls `free_idx`.  Hence the adapters of `free` and `free_idx` both call the exclusive method
   `free_idx`: they conflict, and no priority is declared.  In the current elaboration `free` wins;
@@ -53,17 +53,20 @@ def lastIdxAux : List Nat → Nat → Nat → Nat → Nat
 
 def lastIdx (order : List Nat) (ident : Nat) : Nat := lastIdxAux order ident 0 0
 
-/-- allocators.py:152-155 : remove the entry at `idx`, append it at the end (nothing moves when `idx` is out of range) -/
+/-- allocators.py:152-155 : remove the entry at `idx`, append it at the end.  When `idx` is out of
+    range (possible only when `entries` is not a power of two) no `i ≥ idx` exists and the `Array`
+    read `order[idx]` yields 0 in pysim (Amaranth documents "last element" for synthesis; the
+    correspondence is against pysim), so only the last entry is overwritten with 0. -/
 def moveToEnd (order : List Nat) (idx : Nat) : List Nat :=
   match order[idx]? with
   | some x => order.eraseIdx idx ++ [x]
-  | none => order
+  | none => order.set (order.length - 1) 0
 
-/-- `order[used]` as an Amaranth `Array` read: out of range yields the last element -/
+/-- `order[k]` as an Amaranth `Array` read in pysim: out of range yields 0 -/
 def arrayRead (order : List Nat) (k : Nat) : Nat :=
   match order[k]? with
   | some x => x
-  | none => order.getLast?.getD 0
+  | none => 0
 
 def step (n : Nat) (s : State) (i : In) : State × Out :=
   let w := bitsFor n
